@@ -93,6 +93,15 @@ Print Assumptions contained_real.
 Theorem realpath_model_meets_contract : forall fs, canonical_contract (fs_realpath fs).
 Proof. exact fs_realpath_canonical. Qed.
 Print Assumptions realpath_model_meets_contract.
+(* in that name-space model the path that passes the check is link-free: every proper ancestor is a directory node
+   and the last component is a directory / regular file / other node - all symbolic links have been followed - so
+   together with contained_real the object served sits, as a node, below the root in force *)
+Theorem model_checked_path_is_link_free : forall fs cfg f real,
+  check_symlinks cfg = true ->
+  check_in_document_root (fs_realpath fs) cfg f = Some real ->
+  exists res, real = render (rev res) /\ real_node fs res.
+Proof. exact fs_checked_path_link_free. Qed.
+Print Assumptions model_checked_path_is_link_free.
 
 (* 6. main decision tree, end to end from the raw request target: a file is streamed only if it is S_IFREG and
       its path came out of check_in_document_root (for the request path or for path/index), hence is contained
